@@ -109,6 +109,36 @@ def time_instants_ok(coord, case, positions_of, label, fails):
         p += n_inputs(m)
 
 
+def sky_ptypes(k):
+    """the frame's own physical types, or (every second member) custom ones"""
+    return ["pos.eq.ra", "pos.eq.dec"] if k % 2 == 0 else [f"custom:pos.slit.lon{k}", f"custom:pos.slit.lat{k}"]
+
+
+def declared(case):
+    names, types, units = [], [], []
+    for k, m in enumerate(case["members"]):
+        if m["kind"] == "quantity":
+            names += [f"q{k}"]; types += [f"custom:q{k}"]; units += [u.Unit(m["unit"]).to_string()]
+        elif m["kind"] == "quantity2":
+            names += [f"qa{k}", f"qb{k}"]; types += [f"custom:qa{k}", f"custom:qb{k}"]; units += [u.Unit(m["unit"]).to_string()] * 2
+        elif m["kind"] == "time":
+            names += [f"t{k}"]; types += ["time"]; units += ["s"]
+        else:
+            names += [f"lon{k}", f"lat{k}"]; types += sky_ptypes(k); units += ["deg", "deg"]
+    return names, types, units
+
+
+def declared_ok(w, case, label, fails):
+    """a WCS made from the case's coordinate (sliced, interpolated ...) still declares what the coordinate was given"""
+    names, types, units = declared(case)
+    if list(w.world_axis_names) != names:
+        fails.append(f"{label}: world_axis_names {list(w.world_axis_names)}, given {names}")
+    elif [str(t) for t in w.world_axis_physical_types] != types:
+        fails.append(f"{label}: world_axis_physical_types {list(w.world_axis_physical_types)}, given {types}")
+    elif [u.Unit(x).to_string() for x in w.world_axis_units] != units:
+        fails.append(f"{label}: world_axis_units {list(w.world_axis_units)}, given {units}")
+
+
 def build_member(m, k):
     from ndcube.extra_coords.table_coord import QuantityTableCoordinate, SkyCoordTableCoordinate, TimeTableCoordinate
     kind = m["kind"]
@@ -122,7 +152,7 @@ def build_member(m, k):
         return TimeTableCoordinate(t0_of(m) + np.array(m["tables"][0]) * u.s, names=f"t{k}", physical_types="time")
     sc = SkyCoord(np.array(m["tables"][0]) * u.deg, np.array(m["tables"][1]) * u.deg, frame="icrs")
     return SkyCoordTableCoordinate(sc, mesh=(kind == "sky2mesh"), names=[f"lon{k}", f"lat{k}"],
-                                   physical_types=["pos.eq.ra", "pos.eq.dec"])
+                                   physical_types=sky_ptypes(k))
 
 
 def build(case):
@@ -250,22 +280,7 @@ def run(case):
             break
     obs["values"] = vals
     # (3) declared names / types / units
-    want_names, want_types, want_units = [], [], []
-    for k, m in enumerate(case["members"]):
-        if m["kind"] == "quantity":
-            want_names += [f"q{k}"]; want_types += [f"custom:q{k}"]; want_units += [u.Unit(m["unit"]).to_string()]
-        elif m["kind"] == "quantity2":
-            want_names += [f"qa{k}", f"qb{k}"]; want_types += [f"custom:qa{k}", f"custom:qb{k}"]; want_units += [u.Unit(m["unit"]).to_string()] * 2
-        elif m["kind"] == "time":
-            want_names += [f"t{k}"]; want_types += ["time"]; want_units += ["s"]
-        else:
-            want_names += [f"lon{k}", f"lat{k}"]; want_types += ["pos.eq.ra", "pos.eq.dec"]; want_units += ["deg", "deg"]
-    if list(w.world_axis_names) != want_names:
-        fails.append(f"world_axis_names {list(w.world_axis_names)}, given {want_names}")
-    if [str(t) for t in w.world_axis_physical_types] != want_types:
-        fails.append(f"world_axis_physical_types {list(w.world_axis_physical_types)}, given {want_types}")
-    if [u.Unit(x).to_string() for x in w.world_axis_units] != want_units:
-        fails.append(f"world_axis_units {list(w.world_axis_units)}, given {want_units}")
+    declared_ok(w, case, "the coordinate's WCS", fails)
     # (2) inverse on strictly monotonic 1-input members
     invertible = all(m["kind"] in ("quantity", "time") and m["content"] in ("mono", "desc") for m in case["members"])
     inv_obs = None
@@ -307,6 +322,7 @@ def run(case):
         try:
             sc = coord[tuple(items)] if len(items) > 1 else coord[items[0]]
             sw = sc.wcs
+            declared_ok(sw, case, f"coord[{items}]", fails)
             sl_vals = []
             for _ in range(8):
                 q = [float(rng.randrange(n)) if rng.random() < 0.5 or n == 1 else rng.randrange(n - 1) + rng.choice([0.25, 0.5]) for n in newlens]
@@ -355,6 +371,7 @@ def run(case):
                     p += n_inputs(m)
                 sc2 = sc[tuple(items2)] if len(items2) > 1 else sc[items2[0]]
                 sw2 = sc2.wcs
+                declared_ok(sw2, case, f"coord[{items}][{items2}]", fails)
                 for _ in range(6):
                     q = [float(rng.randrange(n)) if rng.random() < 0.5 or n == 1 else rng.randrange(n - 1) + rng.choice([0.25, 0.5]) for n in lens2]
                     got = p2w(sw2, q)
@@ -416,6 +433,7 @@ def run(case):
             arrs = [gconv(g) for g in grids]
             ic = coord.interpolate(arrs) if len(case["members"]) > 1 else (coord.interpolate(*arrs) if case["members"][0]["kind"] != "time" else coord.interpolate(arrs[0]))
             iw = ic.wcs
+            declared_ok(iw, case, f"interpolate({grids})", fails)
             it_vals = []
             for _ in range(6):
                 ks = [rng.randrange(len(g)) for g in grids]
